@@ -101,6 +101,7 @@ class RC:
 
     def report(self, rule, path, exp, act, node=None):
         self.viol.append({'rule': rule, 'path': '/'.join(str(x) for x in path), 'node_id': id(node) if node is not None else None,
+                          'after_undetermined': self.stats.get('undetermined_type_parameters', 0) > getattr(self, '_undet_mark', 0),
                           'expected': rm.show(exp) if isinstance(exp, tuple) else exp,
                           'actual': rm.show(act) if isinstance(act, tuple) else act,
                           'node': type(node).__name__ if node is not None else ''})
@@ -189,6 +190,30 @@ class RC:
 
     # ---------------------------------------------------------------- entry
     def run(self):
+        if not self.infer:
+            return self.run_once()
+        # inferred return types of functions are taken from the previous pass (fixpoint iteration)
+        self.fret = {}
+        for it in range(3):
+            self.viol = []
+            self.stats = {}
+            self.fret_new = {}
+            self.run_once()
+            stable = self.fret_new == self.fret
+            self.fret = self.fret_new
+            if stable and it > 0:
+                break
+        return self.viol
+
+    def ret_of(self, f):
+        """declared or (inference mode) inferred result type of a function."""
+        if self.infer and f.ret_type is None:
+            r = getattr(self, 'fret', {}).get(id(f))
+            if r is not None:
+                return r
+        return self.dt(f.get_type())
+
+    def run_once(self):
         ast = self.ast
         genv = Env(kind='global')
         for d in self.decls:
@@ -199,6 +224,7 @@ class RC:
                 genv.funcs[d.name] = d
         self.genv = genv
         for d in self.decls:
+            self._undet_mark = self.stats.get('undetermined_type_parameters', 0)
             if isinstance(d, ast.VariableDeclaration):
                 self.var_decl(d, genv, ['global'], register=False)
             elif isinstance(d, ast.FunctionDeclaration):
@@ -450,7 +476,11 @@ class RC:
         bt = self.body(f.body, fenv, p2, exp)
         if infer:
             self.bump('inferred_return_types')
-            self.infer_note(bt, rt, p2 + ['return type'], f)
+            it_ = self.strip_cap(self.upper(bt))
+            if it_ not in (None, UNK, BOT):
+                self.fret_new[id(f)] = it_
+                if rt is not None and not self.same_type(it_, rt):
+                    self.bump('inferred_return_type_differs_from_recorded')
         elif rt != self.void:
             self.check('R3-result', p2, bt, rt, f.body)
 
@@ -634,9 +664,177 @@ class RC:
             self.check('R2-constructor-arg', path + ['new ' + c.name, f.name], self.ty(a, env, path, ft), ft, a)
         return t
 
-    def infer_new(self, e, t, env, path, exp):
-        self.bump('inferred_constructor_type_args')
+    def strip_cap(self, t):
+        if t is not None and t[0] == 'cap':
+            for h in t[3]:
+                return self.strip_cap(h)
         return t
+
+    def match(self, pat, typ, binds, names, pos='lo', depth=0):
+        """Collect inference constraints for the variables `names` of pattern `pat` from type `typ`.
+        pos = 'lo': typ <: pat (an argument flowing into a parameter), 'hi': pat <: typ (the result flowing
+        into the expected type), 'eq': identical.  binds[name] = {'eq': [...], 'lo': [...], 'hi': [...]}."""
+        if pat is None or typ in (None, UNK) or depth > 8:
+            return
+        typ = self.strip_cap(typ)
+        flip = {'lo': 'hi', 'hi': 'lo', 'eq': 'eq'}
+        if pat[0] == 'v' and pat[1] in names:
+            if typ == BOT and pos != 'eq':
+                return
+            if rm.is_proj(typ):
+                if typ == STAR:
+                    return
+                pos = {'out': 'hi', 'in': 'lo', 'inv': 'eq'}[typ[1]] if pos == 'eq' else pos
+                typ = typ[2]
+            binds.setdefault(pat[1], {'eq': [], 'lo': [], 'hi': []})[pos].append(typ)
+            return
+        if pat[0] == 'p':
+            if typ == STAR:
+                return
+            inner = typ[2] if typ[0] == 'p' else typ
+            self.match(pat[2], inner, binds, names, pos, depth + 1)
+            return
+        if pat[0] != 'i':
+            return
+        if rm.is_proj(typ):
+            typ = self.upper(typ)
+        if typ[0] == 'v' and typ[2] is not None:
+            return self.match(pat, typ[2], binds, names, pos, depth + 1)
+        cand = None
+        if typ[0] == 'i' and typ[1] == pat[1]:
+            cand, patc = typ, pat
+        elif pos == 'lo' and typ[0] in ('i', 'c', 'b'):
+            ups = [u for u in self.R.all_supers(typ, limit=40) if u[0] == 'i' and u[1] == pat[1]]
+            if ups:
+                cand, patc = ups[0], pat
+        elif pos == 'hi' and typ[0] == 'i':
+            # pattern class below the target class: match the pattern's declared supertype instead
+            ups = [u for u in self.R.all_supers(pat, limit=40) if u[0] == 'i' and u[1] == typ[1]]
+            if ups:
+                cand, patc = typ, ups[0]
+        if cand is None:
+            return
+        info = self.table.cls.get(cand[1])
+        pvs = [pv for pn, pv, pb in info['params']] if info else ['inv'] * len(cand[2])
+        for pa, ta, pv in zip(patc[2], cand[2], pvs):
+            if ta == STAR or pa == STAR:
+                continue
+            npos = 'eq'
+            if pv == 'out' or (pa[0] == 'p' and pa[1] == 'out'):
+                npos = pos
+            elif pv == 'in' or (pa[0] == 'p' and pa[1] == 'in'):
+                npos = flip[pos]
+            if ta[0] == 'p' and npos == 'eq':
+                # a projection in the target / argument type bounds the variable instead of fixing it
+                npos = {'out': 'hi', 'in': 'lo', 'inv': 'eq'}[ta[1]]
+                if pos == 'lo':
+                    npos = 'eq' if ta[1] == 'inv' else npos
+            self.match(pa[2] if pa[0] == 'p' else pa, ta[2] if ta[0] == 'p' else ta, binds, names, npos, depth + 1)
+
+    def solve(self, cons, recorded):
+        """Pick the inferred type from collected constraints (None: undetermined)."""
+        if not cons:
+            return None
+        eq = [t for t in cons['eq'] if t not in (None, UNK)]
+        if eq:
+            return eq[0]
+        lo = [self.upper(t) for t in cons['lo'] if t not in (None, UNK)]
+        hi = [self.upper(t) for t in cons['hi'] if t not in (None, UNK)]
+        rec = recorded if recorded not in (None, UNK) and not rm.is_proj(recorded) else None
+        if lo:
+            for c in lo:
+                if all(self.R.sub(x, c) for x in lo) and all(self.R.sub(c, h) for h in hi):
+                    return c
+            if rec is not None and all(self.R.sub(x, rec) for x in lo) and all(self.R.sub(rec, h) for h in hi):
+                return rec          # a valid solution (the compiler's lub may be another supertype)
+            self.bump('inference_join_not_modelled')
+            return rec if rec is not None else lo[0]
+        if hi:
+            for c in hi:
+                if all(self.R.sub(c, x) for x in hi):
+                    return c
+            return rec if rec is not None else hi[0]
+        return None
+
+    def undetermined(self, name, bound, binds, path, node, what):
+        """type parameter that neither the arguments nor the target type determine."""
+        self.bump('undetermined_type_parameters')
+        if self.lang in ('java', 'groovy'):
+            b = rm.subst(bound, binds) if bound is not None else None
+            return b if (b is not None and not rm.is_proj(b)) else self.any
+        if self.lang == 'scala':
+            return BOT
+        self.report('R6-infer-undetermined-type-parameter/' + what, path + [name], None, name, node)
+        return UNK
+
+    def infer_new(self, e, t, env, path, exp):
+        """diamond / omitted constructor type arguments: infer them from the target type and the arguments."""
+        self.bump('inferred_constructor_type_args')
+        c, _ = self.class_of(t)
+        if c is None or t[0] != 'i' or not c.type_parameters:
+            return t
+        names = [p.name for p in c.type_parameters]
+        binds = {}
+        selft = ('i', t[1], tuple(('v', p.name, self.tt(p.bound)) for p in c.type_parameters))
+        target = self.strip_cap(exp) if exp not in (None, UNK, BOT, TOP) else None
+        if target is not None and rm.is_proj(target):
+            target = self.upper(target)
+        if target is not None and target[0] == 'i':
+            self.match(selft, target, binds, set(names), 'hi')
+        for a, f in zip(e.args, c.fields):
+            at = self.ty(a, env, path + ['infer'], None)
+            self.match(self.dt(f.get_type()), at, binds, set(names), 'lo')
+        args = []
+        solved = {}
+        for p, rec in zip(c.type_parameters, t[2]):
+            r = self.solve(binds.get(p.name), rec)
+            if r is None:
+                r = self.undetermined(p.name, self.tt(p.bound), solved, path + ['new ' + c.name], e, 'constructor')
+            solved[p.name] = r
+            args.append(r)
+        nt = ('i', t[1], tuple(a if a != UNK else r for a, r in zip(args, t[2])))
+        if nt != t:
+            self.bump('inferred_constructor_type_differs_from_recorded')
+        return nt
+
+    def infer_call(self, f, e, th, env, p2, exp):
+        self.bump('inferred_call_type_args')
+        names = {p.name for p in f.type_parameters}
+        binds = {}
+        named = {a.name: a for a in e.args if a.name}
+        pos = [a for a in e.args if not a.name]
+        pairs = []
+        i = 0
+        for p in f.params:
+            if p.name in named:
+                pairs.append((named[p.name], p))
+            elif p.vararg:
+                while i < len(pos):
+                    pairs.append((pos[i], p))
+                    i += 1
+            elif i < len(pos):
+                pairs.append((pos[i], p))
+                i += 1
+        for a, p in pairs:
+            at = self.ty(a.expr, env, p2 + ['infer'], None)
+            pt = rm.subst(self.dt(p.get_type()), th)
+            if p.vararg and pt is not None and pt[0] == 'i' and len(pt[2]) == 1:
+                pt = pt[2][0]
+            self.match(pt, at, binds, names, 'lo')
+        target = self.strip_cap(exp) if exp not in (None, UNK, BOT, TOP) else None
+        if target is not None and rm.is_proj(target):
+            target = self.upper(target)
+        if target is not None:
+            self.match(rm.subst(self.dt(f.get_type()), th), target, binds, names, 'hi')
+        solved = {}
+        for tpar, rec in zip(f.type_parameters, list(e.type_args) + [None] * len(f.type_parameters)):
+            r = self.solve(binds.get(tpar.name), self.dt(rec) if rec is not None else None)
+            if r is None:
+                r = self.undetermined(tpar.name, self.tt(tpar.bound), solved, p2, e, 'call')
+                if r == UNK:
+                    r = self.dt(rec) if rec is not None else UNK
+            solved[tpar.name] = r
+            th[tpar.name] = r
 
     def ty_FieldAccess(self, e, env, path, exp):
         rt = self.ty(e.expr, env, path)
@@ -700,7 +898,9 @@ class RC:
                 return UNK
             f, th, c = m
             th = dict(th)
-        if f.type_parameters:
+        if f.type_parameters and self.infer and getattr(e, 'can_infer_type_args', False):
+            self.infer_call(f, e, th, env, p2, exp)
+        elif f.type_parameters:
             targs = list(e.type_args)
             if len(targs) != len(f.type_parameters):
                 if targs or not self.infer:
@@ -723,7 +923,7 @@ class RC:
                 if not ok:
                     self.report('R6-call-type-argument-bound', p2 + [tpar.name], b, a, e)
         self.call_args(f, e.args, th, env, p2, e)
-        rt_ = self.dt(f.get_type())
+        rt_ = self.ret_of(f)
         return rm.subst(rt_, th)
 
     def defaults_inherited(self, f):
